@@ -143,7 +143,9 @@ def _ensure_setup():
         return
     d = os.environ.get("VERIF_SCRATCH")
     if not d or not os.path.isdir(d):
+        import atexit
         d = tempfile.mkdtemp(prefix="verif-C42-lazy-")
+        atexit.register(shutil.rmtree, d, ignore_errors=True)
         _state["own"] = d
     setup(d)
 
